@@ -167,7 +167,12 @@ def run_blocks(case):
     from vinegar.tftp import server as srv
     content = bytes.fromhex(case["content"])
     stream = sim_net.SimStream(content, case.get("caps") or [], None)
-    rd = (srv._netascii_reader_function if case["netascii"] else srv._octet_reader_function)(stream)
+    import introspect as I
+    mk = I.find_function(srv, "netascii" if case["netascii"] else "octet", "reader")
+    if mk is None:
+        # the reader helpers are private; without them the property is still checked through whole transfers
+        return {"unobservable": "no module-level reader function found in vinegar.tftp.server"}
+    rd = mk(stream)
     bs = case["bs"]
     blocks = []
     limit = 2 * len(content) + 4
@@ -282,7 +287,10 @@ def run_lifecycle(case):
             hung = hung or t.is_alive()
         obs["hung"] = hung
         alive, sock_open = _observe(w)
-        obs["final"] = {"running": bool(server._running), "shutdown_requested": bool(server._shutdown_requested),
+        import introspect as I
+        fr, fs = I.find_named(server, "running", kind=bool), I.find_named(server, "shutdown", kind=bool)
+        obs["final"] = {"running": alive if fr is I.MISSING else bool(fr),
+                        "shutdown_requested": False if fs is I.MISSING else bool(fs),
                         "thread_alive": alive, "socket_open": sock_open}
         # afterwards the object must still be usable: a quiescent stop releases, a start serves
         log = []
